@@ -25,7 +25,8 @@ RULE = ("exhaustive over (registered element class, XSD type of its tag, child d
         "sequence including an existing instance for repeatable children, and for repeatable mixed content "
         "every ordered pair (thorough: triple) of kinds; contexts are kept only if they satisfy the relaxed "
         "content model and admit the child somewhere. Part B: every public shape/text adder on spTree/grpSp/"
-        "a:p/p:sld parents pre-populated with each such context. Non-trivial = context non-empty; all cases "
+        "a:p/p:sld parents pre-populated with each such context, and background.fill on slide / layout / master "
+        "whose p:bg is absent, a property sheet or a theme reference. Non-trivial = context non-empty; all cases "
         "distinct by construction.")
 ASSUMPTIONS = [
     "libxml2-independent: the oracle is a regex compiled from the XSD particles with all minOccurs relaxed to 0 "
@@ -420,6 +421,11 @@ def adder_cases(tier):
         for comb in itertools.combinations(sld_tail, n):
             for ad in ("add_movie", "background_fill", "name"):
                 yield {"b": "sld", "ctx": list(comb), "adder": ad}
+    # p:bg in every state PowerPoint writes (python-pptx itself only writes bgPr): property sheet, theme reference
+    for host in ("slide", "layout", "master"):
+        for ctx in ("none", "bgPr-noFill", "bgPr-solid", "bgRef", "bgRef-bwMode"):
+            for ad in ("background_fill_access", "background_fill_solid", "background_fill_none"):
+                yield {"b": "bg", "host": host, "ctx": ctx, "adder": ad}
     # timing subtrees for add_movie: p:timing with/without tnLst, bldLst, extLst
     for comb in (["tnLst"], ["bldLst"], ["tnLst", "bldLst"], ["tnLst", "bldLst", "extLst"], ["extLst"], []):
         yield {"b": "timing", "ctx": comb, "adder": "add_movie"}
@@ -550,6 +556,41 @@ def check_adder(case):
         after = _seq(body)
         if not model.accepts(after):
             raise Violation(key + ":order", "%s on <p:txBody> [%s] gave [%s]" % (case["adder"], _fmt(before), _fmt(after)))
+        return "ok"
+    if b == "bg":
+        obj = {"slide": slide, "layout": slide.slide_layout, "master": slide.slide_layout.slide_master}[case["host"]]
+        cs = obj._element.find("{%s}cSld" % NS_P)
+        for old in cs.findall("{%s}bg" % NS_P):
+            cs.remove(old)
+        bgs = {
+            "none": None,
+            "bgPr-noFill": '<p:bg %s><p:bgPr><a:noFill/><a:effectLst/></p:bgPr></p:bg>',
+            "bgPr-solid": '<p:bg %s><p:bgPr><a:solidFill><a:srgbClr val="112233"/></a:solidFill><a:effectLst/></p:bgPr></p:bg>',
+            "bgRef": '<p:bg %s><p:bgRef idx="1001"><a:schemeClr val="bg1"/></p:bgRef></p:bg>',
+            "bgRef-bwMode": '<p:bg %s bwMode="white"><p:bgRef idx="1002"><a:schemeClr val="bg2"/></p:bgRef></p:bg>',
+        }[case["ctx"]]
+        if bgs is not None:
+            cs.insert(0, parse_xml(bgs % ('xmlns:p="%s" xmlns:a="%s"' % (NS_P, NS_A))))
+        before = _seq(cs)
+        try:
+            fill = obj.background.fill
+            if case["adder"] == "background_fill_solid":
+                fill.solid()
+            elif case["adder"] == "background_fill_none":
+                fill.background()
+        except Exception as e:
+            raise Violation(key + ":raises=%s" % type(e).__name__, "%s on %s p:cSld [%s] raised %r"
+                            % (case["adder"], case["host"], _fmt(before), e))
+        if not _model((NS_P, "CT_CommonSlideData")).accepts(_seq(cs)):
+            raise Violation(key + ":order-cSld", "%s gave <p:cSld> [%s]" % (case["adder"], _fmt(_seq(cs))))
+        for bg in cs.findall("{%s}bg" % NS_P):
+            if not _model((NS_P, "CT_Background")).accepts(_seq(bg)):
+                raise Violation(key + ":choice-bg", "%s on %s <p:bg> holding [%s] gave <p:bg> [%s]"
+                                % (case["adder"], case["host"], case["ctx"], _fmt(_seq(bg))))
+            for bgPr in bg.findall("{%s}bgPr" % NS_P):
+                if not _model((NS_P, "CT_BackgroundProperties")).accepts(_seq(bgPr)):
+                    raise Violation(key + ":order-bgPr", "%s on %s <p:bg> holding [%s] gave <p:bgPr> [%s]"
+                                    % (case["adder"], case["host"], case["ctx"], _fmt(_seq(bgPr))))
         return "ok"
     if b in ("sld", "timing"):
         sld = slide._element
